@@ -341,18 +341,33 @@ theorem sheet_coordinates_distinct (rows : List (List Val)) :
 /-- The text `get_attr_origin(attr)` gives for a whole ranged attribute whose reported cells are
 `items` (`{title: coordinate}`, see `value_at_origin`): the "skipped column" text when there is no
 range column, the coordinate when there is one, otherwise `lo:hi` where `lo` and `hi` are
-coordinates of cells of the range, the smallest and the largest one in Python's order of *strings*.
-(For cells of one row in single-letter columns that is the first and the last cell of the range;
-it is not for a range that crosses column `Z`, nor for a ladder table whose range cells come from
-different rows — the text then names a block that is not the set of source cells.) -/
+coordinates of cells of the range, the least and the greatest one in the order of
+`_coord_sort_key` (`ltCoord`: shorter column name first, then the column name, then the row
+number). When the cells lie in several rows (ladder table whose leading columns are the range)
+this is a summary by two source cells, not a list of them. -/
 theorem range_origin_text (items : List (Key × List Char)) :
     ∃ text, attrOrigin (.range items) none = .ok text ∧
       ((items.map fun kc => kc.2) = [] ∧ text = Gen.C18.skippedOrigin ∨
        (∃ c, (items.map fun kc => kc.2) = [c] ∧ text = c) ∨
        (2 ≤ (items.map fun kc => kc.2).length ∧ ∃ lo hi, text = lo ++ ':' :: hi ∧
           lo ∈ (items.map fun kc => kc.2) ∧ hi ∈ (items.map fun kc => kc.2) ∧
-          ∀ c ∈ (items.map fun kc => kc.2), ltCps c lo = false ∧ ltCps hi c = false)) :=
+          ∀ c ∈ (items.map fun kc => kc.2), ltCoord c lo = false ∧ ltCoord hi c = false)) :=
   ⟨_, rfl, rangeDescr_spec _⟩
+
+/-- The property-relevant case: the source cells of the ranged attribute lie in one row `r` of a
+worksheet with the usual coordinates, in the columns `cols` (at least two, in any order, contiguous
+or not, beyond column `Z` or not). Then the text is `<leftmost cell>:<rightmost cell>`. -/
+theorem range_origin_text_row (items : List (Key × List Char)) (r : Nat) (cols : List Nat)
+    (hrow : (items.map fun kc => kc.2) = cols.map (mkCoord r)) (h2 : 2 ≤ cols.length) :
+    ∃ lo hi, lo ∈ cols ∧ hi ∈ cols ∧ (∀ c ∈ cols, lo ≤ c ∧ c ≤ hi) ∧
+      attrOrigin (.range items) none = .ok (mkCoord r lo ++ ':' :: mkCoord r hi) := by
+  obtain ⟨lo, hi, h1, h3, h4, h5⟩ := rangeDescr_single_row r cols h2
+  refine ⟨lo, hi, h1, h3, h4, ?_⟩
+  simp only [attrOrigin, hrow, h5]
+
+/-- the witness of the repaired defect: a range from column `B` to column `AB` of row 2 -/
+example : rangeDescr (sortCoords ((List.range 27).map fun k => mkCoord 1 (k + 1))) = "B2:AB2".toList := by
+  decide +kernel
 
 /-- Ladder tables. If `s'` is the sheet `s` with the blank leading cells of its data rows filled in
 (`fillSheet`, described by `fill_cells`), then reading `s` as a ladder yields exactly what reading
